@@ -14,6 +14,8 @@
 
 #include <chrono>
 #include <cstdint>
+#include <cstring>
+#include <utility>
 #include <limits>
 #include <ratio>
 #include <type_traits>
@@ -404,6 +406,151 @@ struct UOps {
     }
 };
 
+
+// ---- tables that need no per-instantiation entry (part 0 only) --------------------------------------------------------
+#if C12_PART == 0
+constexpr i64 IMAX = std::numeric_limits<i64>::max();
+template <typename E, typename S>
+static void conv_row(Out& impl, Out& ref)
+{
+    impl.b(std::is_convertible_v<typename E::first_type, typename E::second_type>);
+    ref.b(std::is_convertible_v<typename S::first_type, typename S::second_type>);
+}
+template <typename E>
+static void conv_row1(Out& impl)
+{
+    impl.b(std::is_convertible_v<typename E::first_type, typename E::second_type>);
+}
+template <i64 N1, i64 D1, i64 N2, i64 D2>
+struct PQ {
+    using E = std::pair<ec::duration<i64, etl::ratio<N1, D1>>, ec::duration<i64, etl::ratio<N2, D2>>>;
+    using S = std::pair<sc::duration<i64, std::ratio<N1, D1>>, sc::duration<i64, std::ratio<N2, D2>>>;
+    using ET = std::pair<ec::time_point<ec::system_clock, typename E::first_type>, ec::time_point<ec::system_clock, typename E::second_type>>;
+    using ST = std::pair<sc::time_point<sc::system_clock, typename S::first_type>, sc::time_point<sc::system_clock, typename S::second_type>>;
+};
+// participation of the converting constructor at the representability boundary of the period quotient
+// (rows mirrored by driver.ml "u_pq" / "u_pqovf")
+static void pq_rows(Out& impl, Out& ref)
+{
+    impl.tok("ok");
+    ref.tok("ok");
+    #define ROW(N1, D1, N2, D2)                                                                                        \
+        conv_row<PQ<N1, D1, N2, D2>::E, PQ<N1, D1, N2, D2>::S>(impl, ref);                                             \
+        conv_row<PQ<N1, D1, N2, D2>::ET, PQ<N1, D1, N2, D2>::ST>(impl, ref)
+    ROW(IMAX, 1, 1, 1);
+    ROW(1, 1, 1, IMAX);
+    ROW(IMAX, 1, IMAX, 1);
+    ROW(IMAX, 1, 7, 1);
+    ROW(1, 1, IMAX, 1);
+    ROW(4611686018427387904LL, 1, 1, 1);
+    ROW(3037000500LL, 1, 1, 3037000499LL);
+    ROW(1, 3037000499LL, 1, 3037000499LL * 3037000500LL);
+    ROW(1, IMAX, 1, IMAX);
+    ROW(IMAX, 2, 1, 2);
+    ROW(-5, -1, 1, 1);
+    ROW(1, 1000, -1, -1000000);
+    #undef ROW
+}
+// the same where the period quotient is NOT representable: std::chrono's constraint is a hard error there (ratio_divide
+// overflows), etl removes the constructor from overload resolution (detail::period_quotient): no reference leg
+static void pqovf_rows(Out& impl)
+{
+    impl.tok("ok");
+    #define ROW(N1, D1, N2, D2)                                                                                        \
+        conv_row1<PQ<N1, D1, N2, D2>::E>(impl);                                                                        \
+        conv_row1<PQ<N1, D1, N2, D2>::ET>(impl)
+    ROW(3037000500LL, 1, 1, 3037000500LL);
+    ROW(IMAX, 1, 1, 2);
+    ROW(1, IMAX, 2, 1);
+    ROW(1, 2, IMAX, 1);
+    ROW(4611686018427387904LL, 1, 1, 3);
+    ROW(1, 4611686018427387904LL, 3, 1);
+    #undef ROW
+}
+
+// which constructors take part in overload resolution ([time.duration.cons], [time.point.cons])
+static void ctor_rows(Out& impl, Out& ref)
+{
+    using EMS = ec::milliseconds; using ES = ec::seconds;
+    using SMS = sc::milliseconds; using SS = sc::seconds;
+    using ETM = ec::time_point<ec::system_clock, EMS>; using ETS = ec::time_point<ec::system_clock, ES>;
+    using STM = sc::time_point<sc::system_clock, SMS>; using STS = sc::time_point<sc::system_clock, SS>;
+    impl.tok("ok")
+        .b(std::is_constructible_v<ec::duration<int>, double>).b(std::is_constructible_v<ec::duration<int>, float>)
+        .b(std::is_constructible_v<ec::duration<double>, int>).b(std::is_constructible_v<ec::duration<int>, long>)
+        .b(std::is_constructible_v<ec::duration<unsigned>, int>)
+        .b(std::is_convertible_v<int, ec::duration<int>>).b(std::is_convertible_v<double, ec::duration<double>>)
+        .b(std::is_constructible_v<ec::duration<double, etl::milli>, ES>).b(std::is_constructible_v<ES, ec::duration<double>>)
+        .b(std::is_constructible_v<ES, EMS>).b(std::is_constructible_v<EMS, ES>).b(std::is_convertible_v<ES, EMS>)
+        .b(std::is_constructible_v<ec::duration<float>, ec::duration<double>>)
+        .b(std::is_constructible_v<ec::duration<std::uint8_t>, ec::duration<std::int64_t>>)
+        .b(std::is_convertible_v<ETM, ETS>).b(std::is_convertible_v<ETS, ETM>).b(std::is_constructible_v<ETS, ETM>)
+        .b(std::is_constructible_v<ETM, EMS>).b(std::is_convertible_v<EMS, ETM>).b(std::is_constructible_v<ETM, ES>);
+    ref.tok("ok")
+        .b(std::is_constructible_v<sc::duration<int>, double>).b(std::is_constructible_v<sc::duration<int>, float>)
+        .b(std::is_constructible_v<sc::duration<double>, int>).b(std::is_constructible_v<sc::duration<int>, long>)
+        .b(std::is_constructible_v<sc::duration<unsigned>, int>)
+        .b(std::is_convertible_v<int, sc::duration<int>>).b(std::is_convertible_v<double, sc::duration<double>>)
+        .b(std::is_constructible_v<sc::duration<double, std::milli>, SS>).b(std::is_constructible_v<SS, sc::duration<double>>)
+        .b(std::is_constructible_v<SS, SMS>).b(std::is_constructible_v<SMS, SS>).b(std::is_convertible_v<SS, SMS>)
+        .b(std::is_constructible_v<sc::duration<float>, sc::duration<double>>)
+        .b(std::is_constructible_v<sc::duration<std::uint8_t>, sc::duration<std::int64_t>>)
+        .b(std::is_convertible_v<STM, STS>).b(std::is_convertible_v<STS, STM>).b(std::is_constructible_v<STS, STM>)
+        .b(std::is_constructible_v<STM, SMS>).b(std::is_convertible_v<SMS, STM>).b(std::is_constructible_v<STM, SS>);
+}
+
+// the common type of two durations whose denominators' lcm does not fit intmax_t: etl::lcm wraps around (unsigned
+// arithmetic), std::common_type is ill-formed; only model = code is compared
+static void lcmwrap_rows(Out& impl)
+{
+    using A = ec::duration<i64, etl::ratio<1, 4611686018427387904LL>>;
+    using B = ec::duration<i64, etl::ratio<1, 4052555153018976267LL>>;
+    using C = etl::common_type_t<A, B>;
+    impl.tok("ok").num(C::period::num).num(C::period::den).num(code_of<typename C::rep>());
+    impl.b(std::is_convertible_v<A, C>).b(std::is_convertible_v<B, C>);
+}
+
+// float and long double representations: every result is compared with std::chrono here (same types); the legs carry
+// the number of agreeing results (the extracted model has no float / long double arithmetic)
+template <typename F, int I, int J>
+static int fl_agree(double xd, double yd)
+{
+    using EP1 = etl::ratio<UPer<I>::n, UPer<I>::d>; using EP2 = etl::ratio<UPer<J>::n, UPer<J>::d>;
+    using SP1 = std::ratio<UPer<I>::n, UPer<I>::d>; using SP2 = std::ratio<UPer<J>::n, UPer<J>::d>;
+    using EF1 = ec::duration<F, EP1>; using EF2 = ec::duration<F, EP2>; using EI2 = ec::duration<i64, EP2>;
+    using SF1 = sc::duration<F, SP1>; using SF2 = sc::duration<F, SP2>; using SI2 = sc::duration<i64, SP2>;
+    auto const x = static_cast<F>(xd);
+    auto const y = static_cast<F>(yd);
+    int n = 0;
+    n += ec::duration_cast<EI2>(EF1{x}).count() == sc::duration_cast<SI2>(SF1{x}).count();
+    n += ec::floor<EI2>(EF1{x}).count() == sc::floor<SI2>(SF1{x}).count();
+    n += ec::ceil<EI2>(EF1{x}).count() == sc::ceil<SI2>(SF1{x}).count();
+    n += ec::round<EI2>(EF1{x}).count() == sc::round<SI2>(SF1{x}).count();
+    n += ec::duration_cast<EF2>(EF1{x}).count() == sc::duration_cast<SF2>(SF1{x}).count();
+    n += EF2(EF1{x}).count() == SF2(SF1{x}).count();
+    n += (EF1{x} + EF2{y}).count() == (SF1{x} + SF2{y}).count();
+    n += (EF1{x} - EF2{y}).count() == (SF1{x} - SF2{y}).count();
+    n += (EF1{x} / EF2{y}) == (SF1{x} / SF2{y}) || y == 0;
+    n += (EF1{x} < EF2{y}) == (SF1{x} < SF2{y});
+    n += (EF1{x} == EF2{y}) == (SF1{x} == SF2{y});
+    n += (EF1{x} * y).count() == (SF1{x} * y).count();
+    n += (EI2{static_cast<i64>(yd)} + EF1{x}).count() == (SI2{static_cast<i64>(yd)} + SF1{x}).count();
+    n += ec::duration_cast<EF2>(EI2{static_cast<i64>(yd)}).count() == sc::duration_cast<SF2>(SI2{static_cast<i64>(yd)}).count();
+    return n;
+}
+constexpr int FL_N = 14;
+template <int I, int J>
+static void fl_rows(Toks& in, Out& impl, Out& ref)
+{
+    std::uint64_t ux = in.unum(), uy = in.unum();
+    double x = 0, y = 0;
+    std::memcpy(&x, &ux, sizeof x);
+    std::memcpy(&y, &uy, sizeof y);
+    impl.tok("ok").num(fl_agree<float, I, J>(x, y)).num(fl_agree<long double, I, J>(x, y));
+    ref.tok("ok").num(FL_N).num(FL_N);
+}
+#endif
+
 using URunFn = bool (*)(UOpId, Toks&, Out&, Out&);
 struct UEntry {
     URunFn run;
@@ -480,6 +627,20 @@ bool vh::run_case(std::string const& op, Toks& in, Out& impl, Out& ref)
     auto j  = static_cast<int>(in.num());
     auto rc = static_cast<int>(in.num());
     i64 n1 = in.num(), d1 = in.num(), r1 = in.num(), n2 = in.num(), d2 = in.num(), r2 = in.num();
+    if (op == "u_pq") { pq_rows(impl, ref); return true; }
+    if (op == "u_pqovf") { pqovf_rows(impl); return true; }
+    if (op == "u_ctor") { ctor_rows(impl, ref); return true; }
+    if (op == "u_lcmwrap") { lcmwrap_rows(impl); return true; }
+    if (op == "u_fl") {
+        // float / long double representations on four period pairs (i, j index the period table)
+        if (i == 0 && j == 1) { fl_rows<0, 1>(in, impl, ref); return true; }
+        if (i == 1 && j == 0) { fl_rows<1, 0>(in, impl, ref); return true; }
+        if (i == 2 && j == 1) { fl_rows<2, 1>(in, impl, ref); return true; }
+        if (i == 3 && j == 4) { fl_rows<3, 4>(in, impl, ref); return true; }
+        if (i == 5 && j == 0) { fl_rows<5, 0>(in, impl, ref); return true; }
+        impl.tok("not-instantiated");
+        return true;
+    }
     if (i < 0 || i >= UNP || j < 0 || j >= UNP || rc < 0 || rc >= 64) {
         impl.tok("bad-index");
         return true;
